@@ -313,6 +313,12 @@ func driveC01(o opts) error {
 				}
 			}
 			viaClient := g.Chance(0.3) && pendingRelease == nil
+			for _, op := range ops {
+				if sc.Table(op.Table) == nil {
+					// the client refuses operations on tables its schema lacks before it sends anything
+					viaClient = false
+				}
+			}
 			var ob tObs
 			if viaClient {
 				// the client's own transaction: its effects must be in its cache when Transact returns
